@@ -38,9 +38,9 @@ def fnFacts : List FnFact := [
   ⟨18, "server.go:Stop", false, 0, 0, "", false⟩,
   ⟨19, "server.go:startServer", false, 0, 0, "", false⟩,
   ⟨20, "cdr.go:OpenCDR", false, 0, 1, "", false⟩,
-  ⟨21, "cdr.go:UpdateCDR", false, 0, 0, "", false⟩,
-  ⟨22, "cdr.go:CloseCDR", false, 0, 0, "", false⟩,
-  ⟨23, "cdr.go:dumpCdrFile", false, 0, 0, "", false⟩,
+  ⟨21, "cdr.go:UpdateCDR", false, 0, 2, "", false⟩,
+  ⟨22, "cdr.go:CloseCDR", false, 0, 1, "", false⟩,
+  ⟨23, "cdr.go:dumpCdrFile", false, 0, 3, "", false⟩,
   ⟨24, "converged_charging.go:min", false, 0, 0, "", false⟩,
   ⟨25, "converged_charging.go:NotifyRecharge", true, 2, 0, "", false⟩,
   ⟨26, "converged_charging.go:SendChargingNotification", false, 0, 0, "", false⟩,
